@@ -117,6 +117,16 @@ FlagStringDeterministic ==
 \* Action.Unpack ranges over actionNames looking for the name: every order finds the same action
 ActionNames == {"kill_thread", "kill_process", "trap", "errno", "trace", "log", "allow"}
 UnpackResults(s) == {IF \E i \in 1..Len(o) : o[i] = s THEN s ELSE "error" : o \in {SetToSeq(ActionNames)}}
+\* Action.String reads the value -> name table.  The table is a literal in the code (one name per value).  Under
+\* "ActionNamesInverted" (a seeded change) it is built when the package is initialised by ranging over a name -> value
+\* table that also holds the alias "kill" for kill_thread: the name that survives depends on the iteration order, which
+\* is fixed once per PROCESS - so only a comparison across processes can see it.
+NameToValue == [n \in ActionNames \cup {"kill"} |-> IF n = "kill" THEN "kill_thread" ELSE n]
+ActionStrings(a) ==
+  IF "ActionNamesInverted" \in Dev
+  THEN {n \in DOMAIN NameToValue : NameToValue[n] = a}      \* whichever name is written last wins
+  ELSE {a}
+ActionStringDeterministic == \A a \in ActionNames : Cardinality(ActionStrings(a)) = 1
 
 ---------------------------------------------------------------------------
 (* Call histories for the sequential replay: every sequence of at most     *)
